@@ -7,7 +7,8 @@ from harness.checks import c03
 RULE = ("(a) widths: every (global bitlength b in 2..4[5], requested width n in 0..b+3, value v in [-3, 2^n+3]): "
         "from_bits(to_bits(v, n)) == v for 0 <= v < 2^n, rejection outside, on real and small fields, enumerated "
         "completely; and by witness-space search (as C03) the satisfiable operand set of to_bits(n) and of "
-        "assert_positive(bits=n) is exactly [0, 2^n) over all of F_p for n != b. (b) packers: schemas from a recursive "
+        "assert_positive(bits=n) is exactly [0, 2^n) over all of F_p for n != b. The wires / constraints emitted by to_bits(n), check_positive(n), assert_positive(n) are the same for every value within a mode and "
+        "equal between plain and ignore-errors runs and between true and false guards (the width decomposed is the width requested on every path). (b) packers: schemas from a recursive "
         "strategy over PackBool / PackIntMod(m>=2) / PackList / PackRepeat with plain, secret (PrivVal) and mixed plain/secret leaves: "
         "unpack(pack(x)) == x by value also at a non-zero bit offset, bitlen() == len(pack(x)), emitted constraints "
         "satisfied, plain out-of-range leaves rejected. Non-trivial = n != b for (a); schema depth >= 2 with a "
@@ -48,6 +49,46 @@ def widths_shard(bs, p):
                         found.setdefault("to_bits.rejects-in-range", {"case": case, "key": "to_bits.rejects-in-range",
                             "msg": "to_bits(%d) rejected %d at bitlength %d" % (n, v, b)})
                 stats.case(case, n != b, ("width:n%sb" % ("=" if n == b else "<" if n < b else ">"),) + (("width-as-intlike",) if wrap else ()), sample_cap=3)
+    # the requested width is the width of the decomposition in EVERY mode: with errors ignored, under a false guard and under a
+    # true guard the call emits as many wires and constraints as for a value that fits (a fallback path that decomposes at
+    # the global bitlength instead of the requested width would show here, and nowhere in the values)
+    OPS = {"to_bits": lambda x, n: x.to_bits(n), "check_positive": lambda x, n: x.check_positive(n),
+           "assert_positive": lambda x, n: x.assert_positive(n)}
+    for b in bs:
+        for n in range(0, b + 4):
+            for opn, fn in OPS.items():
+                shapes = {}
+                for mode in ("plain", "ignore", "guard1", "guard0"):
+                    for v in (0, 1, (1 << n) - 1, 1 << n, (1 << n) + 1, -1, -(1 << n), (1 << (b + 2)) + 1):
+                        ns = env.reset(p, b, 0)
+                        x = ns.rt.PrivVal(v)
+                        g = ns.rt.PrivVal(0 if mode == "guard0" else 1)
+                        nv, nc = len(ns.rec.vals), len(ns.rec.cons)
+                        try:
+                            if mode == "ignore":
+                                ns.rt.ignore_errors(True)
+                            if mode.startswith("guard"):
+                                ns.rt.guarded(g)(lambda: fn(x, n))()
+                            else:
+                                fn(x, n)
+                        except (AssertionError, ValueError):
+                            continue
+                        finally:
+                            if mode == "ignore":
+                                ns.rt.ignore_errors(False)
+                        shapes.setdefault(mode, {})[v] = (len(ns.rec.vals) - nv, len(ns.rec.cons) - nc)
+                case = {"part": "shape", "p": p, "b": b, "n": n, "op": opn}
+                msg = None
+                for mode, d in shapes.items():
+                    if len(set(d.values())) > 1:
+                        msg = "%s(%d) at bitlength %d (%s): (wires, constraints) emitted depend on the value: %r" % (opn, n, b, mode, d)
+                for m1, m2 in (("plain", "ignore"), ("guard1", "guard0")):
+                    if not msg and shapes.get(m1) and shapes.get(m2) and set(shapes[m1].values()) != set(shapes[m2].values()):
+                        msg = "%s(%d) at bitlength %d: (wires, constraints) are %r in mode %s but %r in mode %s: the width decomposed is not the width requested" % (
+                            opn, n, b, sorted(set(shapes[m1].values())), m1, sorted(set(shapes[m2].values())), m2)
+                if msg:
+                    found.setdefault("width.shape." + opn, {"case": case, "key": "width.shape." + opn, "msg": msg})
+                stats.case(case, n != b, ("shape:" + opn, "width:n%sb" % ("=" if n == b else "<" if n < b else ">")), sample_cap=3)
     stats.violations = list(found.values())
     return stats
 
